@@ -25,7 +25,7 @@ FIXED_ARGS = [None, "", "a=1", "a=9&z=8", "b", "a=1&a=2", "x y=z+w", ["map"], ["
               ["map", ["z", ["float", "0.0"]]], ["map", ["z", ["float", "-0.0"]]], ["seq", ["z", ["float", "-0.0"]], ["y", ["float", "0.0"]], ["x", 0]],
               ["map", ["a", ["float", "1.0"]], ["b", 1]], ["map", ["a", ["float", "1e+16"]], ["b", 10 ** 16]], ["map", ["a", ["float", "-1.5"]], ["b", -1]],
               ["map", ["k", ["strsub", "1&admin=1"]]], ["seq", ["k", ["strsub", "a b+c;d=é#%"]]], ["map", ["k", ["list", ["strsub", "x y"], "z"]]],
-              ["bytes"], ["other"], ["map", ["a", ["other"]]], ["seq", ["k&", "v="], ["k+", "v;"], ["", ""]], ["map", ["é", "日本"], ["a b", "c d"]]]
+              ["bytes"], ["other"], ["map", ["a", ["other"]]], ["seq", ["x+y", ["list"]], ["a", ["nan"]]], ["map", ["z", True], ["a", ["inf"]]], ["seq", ["a", ["nan"]], ["b", None]], ["seq", ["k&", "v="], ["k+", "v;"], ["", ""]], ["map", ["é", "日本"], ["a b", "c d"]]]
 
 
 def run(ctx):
